@@ -1,7 +1,472 @@
-(* C08 — proofs about Model/KLoop.v *)
+(* C08 — proofs about Model/KLoop.v: one inductive invariant of the loop state relative to the trace
+   produced since run() was entered, preserved by every layer (acts, handlers, dispatcher, flush, tasks,
+   tick at every nesting depth), then the run() theorems. *)
 From Coq Require Import List ZArith Bool Arith Lia.
 From Circ Require Import Model.KLoop.
 Import ListNotations.
 
+(* ---- projections of a trace *)
+Definition firedK (d : list tr) : list evk :=
+  flat_map (fun x => match x with TFire k => [k] | _ => [] end) d.
+Definition dispK (d : list tr) : list evk :=
+  flat_map (fun x => match x with TDisp k => [k] | _ => [] end) d.
+Definition reqs (d : list tr) : list (option Z) :=
+  flat_map (fun x => match x with TReq c => [c] | _ => [] end) d.
+Definition cnt (k : evk) (l : list evk) : nat := length (filter (evk_eqb k) l).
+
+Lemma firedK_app a b : firedK (a ++ b) = firedK a ++ firedK b.
+Proof. apply flat_map_app. Qed.
+Lemma dispK_app a b : dispK (a ++ b) = dispK a ++ dispK b.
+Proof. apply flat_map_app. Qed.
+Lemma reqs_app a b : reqs (a ++ b) = reqs a ++ reqs b.
+Proof. apply flat_map_app. Qed.
+Lemma cnt_app k a b : cnt k (a ++ b) = cnt k a + cnt k b.
+Proof. unfold cnt. rewrite filter_app, app_length. reflexivity. Qed.
+
+Definition idle (s : st) : Prop :=
+  running s = false /\ executing s = false /\ fifo s = [] /\ heap s = [] /\ batch s = 0 /\ bad s = false.
+
+(* ---- the invariant; t0 = trace when run() was entered *)
+Definition Inv (t0 : list tr) (s : st) : Prop :=
+  exists d, trace s = t0 ++ d /\
+    batch s = length (heap s) /\
+    firedK d = dispK d ++ heap s ++ fifo s /\
+    cnt KStarted (firedK d) = 1 /\
+    (if running s
+     then cnt KStopped (firedK d) = 0 /\ reqs d = []
+     else cnt KStopped (firedK d) = 1 /\ exists c r, reqs d = c :: r /\ xcode s = c).
+
+Definition mono (s s' : st) : Prop := running s = false -> running s' = false.
+Definition good (f : st -> st) : Prop := forall t0 s, Inv t0 s -> Inv t0 (f s) /\ mono s (f s).
+
+Lemma mono_refl s : mono s s. Proof. red; auto. Qed.
+Lemma mono_trans a b c : mono a b -> mono b c -> mono a c. Proof. unfold mono; auto. Qed.
+
+(* steps that touch none of the fields / trace entries the invariant reads *)
+Definition quiet (x : tr) : Prop :=
+  match x with TFire _ | TDisp _ | TReq _ => False | _ => True end.
+
+Lemma inv_logt t0 x s : quiet x -> Inv t0 s -> Inv t0 (logt x s).
+Proof.
+  intros Hq (d & Ht & Hb & Hf & Hs & Hr). exists (d ++ [x]).
+  unfold logt; simpl. rewrite Ht, app_assoc. split; [reflexivity|].
+  rewrite firedK_app, dispK_app, reqs_app.
+  assert (firedK [x] = [] /\ dispK [x] = [] /\ reqs [x] = []) as (E1 & E2 & E3)
+    by (destruct x; simpl in Hq; try contradiction; auto).
+  rewrite E1, E2, E3, !app_nil_r. auto.
+Qed.
+
+Lemma inv_fire t0 k s : k <> KStarted -> k <> KStopped -> Inv t0 s -> Inv t0 (fire k s).
+Proof.
+  intros N1 N2 (d & Ht & Hb & Hf & Hs & Hr). exists (d ++ [TFire k]).
+  unfold fire, logt; simpl. rewrite Ht, app_assoc. split; [reflexivity|].
+  rewrite firedK_app, dispK_app, reqs_app. simpl. rewrite !app_nil_r.
+  split; [exact Hb|]. split; [rewrite Hf, !app_assoc; reflexivity|].
+  rewrite !cnt_app.
+  assert (cnt KStarted [k] = 0) as E1 by (destruct k; try reflexivity; congruence).
+  assert (cnt KStopped [k] = 0) as E2 by (destruct k; try reflexivity; congruence).
+  rewrite E1, E2, !Nat.add_0_r. auto.
+Qed.
+
+Lemma inv_req_running t0 c s : Inv t0 s -> running s = true ->
+  Inv t0 (fire KStopped (set_xcode c (set_running false (logt (TReq c) s)))).
+Proof.
+  intros (d & Ht & Hb & Hf & Hs & Hr) R. rewrite R in Hr. destruct Hr as (H0 & Hq).
+  exists (d ++ [TReq c; TFire KStopped]).
+  unfold fire, logt; simpl. rewrite Ht, <- !app_assoc. split; [reflexivity|].
+  rewrite firedK_app, dispK_app, reqs_app. simpl. rewrite !app_nil_r.
+  split; [exact Hb|]. split; [rewrite Hf, !app_assoc; reflexivity|].
+  rewrite !cnt_app, H0, Hs, Hq. simpl. split; [reflexivity|]. split; [reflexivity|].
+  exists c, []. auto.
+Qed.
+
+Lemma inv_req_idle t0 c s : Inv t0 s -> running s = false -> Inv t0 (logt (TReq c) s).
+Proof.
+  intros (d & Ht & Hb & Hf & Hs & Hr) R. rewrite R in Hr. destruct Hr as (H1 & c0 & r & Hq & Hx).
+  exists (d ++ [TReq c]). unfold logt; simpl. rewrite Ht, app_assoc. split; [reflexivity|].
+  rewrite firedK_app, dispK_app, reqs_app. simpl. rewrite !app_nil_r.
+  rewrite R. repeat split; auto. exists c0, (r ++ [c]). rewrite Hq. auto.
+Qed.
+
+(* fields the invariant does not read *)
+Lemma inv_set_tasks t0 v s : Inv t0 s -> Inv t0 (set_tasks v s). Proof. exact (fun H => H). Qed.
+Lemma inv_set_nextg t0 v s : Inv t0 s -> Inv t0 (set_nextg v s). Proof. exact (fun H => H). Qed.
+Lemma inv_set_sched t0 v s : Inv t0 s -> Inv t0 (set_sched v s). Proof. exact (fun H => H). Qed.
+Lemma inv_set_ext t0 v s : Inv t0 s -> Inv t0 (set_ext v s). Proof. exact (fun H => H). Qed.
+Lemma inv_set_bad t0 s : Inv t0 s -> Inv t0 (set_bad s). Proof. exact (fun H => H). Qed.
+Lemma inv_set_executing t0 v s : Inv t0 s -> Inv t0 (set_executing v s). Proof. exact (fun H => H). Qed.
+
+Lemma good_set_bad : good set_bad.
+Proof. intros t0 s H. split; [exact H | red; auto]. Qed.
+
+Section Layers.
+Variable P : prog.
+Variable ticker : st -> st.
+Hypothesis Htk : good ticker.
+
+Lemma ticker3 t0 s : Inv t0 s -> Inv t0 (ticker (ticker (ticker s))) /\ mono s (ticker (ticker (ticker s))).
+Proof.
+  intros H. destruct (Htk t0 s H) as (H1 & M1). destruct (Htk t0 _ H1) as (H2 & M2).
+  destruct (Htk t0 _ H2) as (H3 & M3). split; [exact H3|]. eauto using mono_trans.
+Qed.
+
+Lemma req_stop_good t0 c s : Inv t0 s ->
+  Inv t0 (fst (req_stop ticker c s)) /\ mono s (fst (req_stop ticker c s)) /\
+  (snd (req_stop ticker c s) = true -> running (fst (req_stop ticker c s)) = false).
+Proof.
+  intros H. unfold req_stop, stop.
+  destruct (running s) eqn:R.
+  - assert (running (logt (TReq c) s) = true) as R' by exact R. rewrite R'. simpl negb. cbv iota.
+    pose proof (inv_req_running t0 c s H R) as H1.
+    set (s1 := fire KStopped (set_xcode c (set_running false (logt (TReq c) s)))) in *.
+    assert (running s1 = false) as R1 by reflexivity.
+    destruct (executing s1).
+    + simpl. split; [exact H1|]. split; [red; auto|auto].
+    + simpl. destruct (ticker3 t0 s1 H1) as (H3 & M3). split; [exact H3|].
+      split; [red; intros; apply M3; exact R1| intros _; apply M3; exact R1].
+  - assert (running (logt (TReq c) s) = false) as R' by exact R. rewrite R'. simpl.
+    split; [apply inv_req_idle; assumption|]. split; [red; auto|discriminate].
+Qed.
+
+Lemma stop_idle c s : running s = false -> stop ticker c s = (s, false).
+Proof. intros R. unfold stop. rewrite R. reflexivity. Qed.
+
+Lemma t2_raise_good t0 c b s : Inv t0 s -> Inv t0 (t2_raise c b s) /\ running (t2_raise c b s) = running s.
+Proof.
+  intros H. unfold t2_raise. destruct b; [|auto]. destruct c; [|auto].
+  split; [apply inv_logt; simpl; auto | reflexivity].
+Qed.
+
+(* an abort by XStopped means the manager is not running any more; bodies abort in no other way *)
+Definition stopped_abort (e : option exn) (s : st) : Prop :=
+  match e with None => True | Some (XStopped _) => running s = false | Some _ => False end.
+
+Lemma exec_act_good t0 a s : Inv t0 s ->
+  Inv t0 (fst (exec_act ticker a s)) /\ mono s (fst (exec_act ticker a s)) /\
+  stopped_abort (snd (exec_act ticker a s)) (fst (exec_act ticker a s)).
+Proof.
+  intros H. destruct a as [thr n | thr c]; simpl.
+  - split; [apply inv_fire; congruence || assumption|]. split; [red; auto | exact I].
+  - destruct (req_stop_good t0 c s H) as (H1 & M1 & S1).
+    destruct (req_stop ticker c s) as (s', raised) eqn:E. simpl in *.
+    destruct thr; simpl.
+    + destruct (t2_raise_good t0 c raised s' H1) as (H2 & R2).
+      split; [exact H2|]. split; [red; intros; rewrite R2; auto | exact I].
+    + split; [exact H1|]. split; [exact M1|].
+      destruct raised; [|exact I]. destruct c; [simpl; auto | exact I].
+Qed.
+
+Lemma exec_acts_good t0 l : forall s, Inv t0 s ->
+  Inv t0 (fst (exec_acts ticker l s)) /\ mono s (fst (exec_acts ticker l s)) /\
+  stopped_abort (snd (exec_acts ticker l s)) (fst (exec_acts ticker l s)).
+Proof.
+  induction l as [|a r IH]; intros s H; simpl.
+  - split; [exact H|]. split; [red; auto | exact I].
+  - destruct (exec_act_good t0 a s H) as (H1 & M1 & S1).
+    destruct (exec_act ticker a s) as (s1, e) eqn:E. simpl in *.
+    destruct e as [x|].
+    + simpl. auto.
+    + destruct (IH s1 H1) as (H2 & M2 & S2). split; [exact H2|]. split; [eauto using mono_trans | exact S2].
+Qed.
+
+Lemma on_stop_exn_good t0 x s : Inv t0 s -> (forall z, x = XStopped z -> running s = false) ->
+  Inv t0 (on_stop_exn ticker x s) /\ mono s (on_stop_exn ticker x s).
+Proof.
+  intros H Hx. destruct x; simpl.
+  - rewrite (stop_idle (Some c) s (Hx c eq_refl)). simpl. split; [exact H | red; auto].
+  - destruct (req_stop_good t0 c s H) as (H1 & M1 & _). auto.
+  - destruct (req_stop_good t0 None s H) as (H1 & M1 & _). auto.
+  - split; [exact H | red; auto].
+Qed.
+
+Lemma on_exn_good t0 x s : Inv t0 s -> (forall z, x = XStopped z -> running s = false) ->
+  Inv t0 (on_exn ticker x s) /\ mono s (on_exn ticker x s).
+Proof.
+  intros H Hx. destruct x; try (apply on_stop_exn_good; assumption).
+  simpl. split; [apply inv_fire; congruence || assumption | red; auto].
+Qed.
+
+Lemma end_of_not_stopped r x : end_of r = Some x -> forall z, x = XStopped z -> False.
+Proof. destruct r; simpl; intros E z Hz; inversion E; subst; discriminate. Qed.
+
+Lemma run_handler_good t0 k i b s : Inv t0 s ->
+  Inv t0 (run_handler ticker k i b s) /\ mono s (run_handler ticker k i b s).
+Proof.
+  intros H. destruct b as [acts r | segs]; simpl.
+  - assert (Inv t0 (logt (TH k i) s)) as H0 by (apply inv_logt; simpl; auto).
+    destruct (exec_acts_good t0 acts _ H0) as (H1 & M1 & S1).
+    destruct (exec_acts ticker acts (logt (TH k i) s)) as (s1, e) eqn:E. simpl in *.
+    assert (mono s s1) as M by (red; intros R; apply M1; exact R).
+    destruct e as [x|].
+    + destruct (on_exn_good t0 x s1 H1) as (H2 & M2).
+      { intros z ->. exact S1. }
+      split; [exact H2 | eauto using mono_trans].
+    + destruct (end_of r) as [x|] eqn:Er.
+      * destruct (on_exn_good t0 x s1 H1) as (H2 & M2).
+        { intros z Hz. exfalso. eapply end_of_not_stopped; eauto. }
+        split; [exact H2 | eauto using mono_trans].
+      * auto.
+  - split; [|red; auto]. apply inv_logt; simpl; auto.
+Qed.
+
+Lemma run_handlers_good t0 k bs : forall i s, Inv t0 s ->
+  Inv t0 (run_handlers ticker k i bs s) /\ mono s (run_handlers ticker k i bs s).
+Proof.
+  induction bs as [|b r IH]; intros i s H; simpl.
+  - split; [exact H | red; auto].
+  - destruct (run_handler_good t0 k i b s H) as (H1 & M1).
+    destruct (IH (S i) _ H1) as (H2 & M2). split; [exact H2 | eauto using mono_trans].
+Qed.
+
+Lemma do_xact_good t0 x s : Inv t0 s ->
+  Inv t0 (fst (do_xact ticker x s)) /\ mono s (fst (do_xact ticker x s)).
+Proof.
+  intros H. destruct x; simpl.
+  - split; [exact H | red; auto].
+  - split; [apply inv_fire; congruence || assumption | red; auto].
+  - destruct (req_stop_good t0 c s H) as (H1 & M1 & _).
+    destruct (req_stop ticker c s) as (s', raised). simpl in *.
+    destruct (t2_raise_good t0 c raised s' H1) as (H2 & R2).
+    split; [exact H2 | red; intros; rewrite R2; auto].
+Qed.
+
+Lemma idle_wait_good t0 xs : forall s, Inv t0 s ->
+  Inv t0 (idle_wait ticker xs s) /\ mono s (idle_wait ticker xs s).
+Proof.
+  induction xs as [|x r IH]; intros s H; simpl.
+  - assert (Inv t0 (logt (TWait true) (set_ext [] s))) as H0 by (apply inv_logt; simpl; auto).
+    destruct (running s) eqn:R.
+    + destruct (req_stop_good t0 None _ H0) as (H1 & M1 & _). split; [exact H1|].
+      red; intros R0. apply M1. exact R0.
+    + split; [exact H0 | red; auto].
+  - assert (Inv t0 (logt (TWait true) (set_ext r s))) as H0 by (apply inv_logt; simpl; auto).
+    destruct (do_xact_good t0 x _ H0) as (H1 & M1).
+    destruct (do_xact ticker x (logt (TWait true) (set_ext r s))) as (s', woke). simpl in *.
+    assert (mono s s') as M by (red; intros R; apply M1; exact R).
+    destruct woke; [auto|]. destruct (IH s' H1) as (H2 & M2). split; [exact H2 | eauto using mono_trans].
+Qed.
+
+Lemma timed_wait_good t0 s : Inv t0 s -> Inv t0 (timed_wait ticker s) /\ mono s (timed_wait ticker s).
+Proof.
+  intros H. unfold timed_wait.
+  assert (Inv t0 (logt (TWait false) s)) as H0 by (apply inv_logt; simpl; auto).
+  destruct (ext (logt (TWait false) s)) as [|x r].
+  - split; [exact H0 | red; auto].
+  - destruct (do_xact_good t0 x (set_ext r (logt (TWait false) s)) H0) as (H1 & M1).
+    split; [exact H1 | red; intros R; apply M1; exact R].
+Qed.
+
+(* the pop of dispatchEvents followed by the dispatcher's entry *)
+Lemma inv_pop t0 s k h b : Inv t0 s -> batch s = S b -> heap s = k :: h ->
+  Inv t0 (logt (TDisp k) (set_heap h (set_batch b s))).
+Proof.
+  intros (d & Ht & Hb & Hf & Hs & Hr) Eb Eh. exists (d ++ [TDisp k]).
+  unfold logt; simpl. rewrite Ht, app_assoc. split; [reflexivity|].
+  rewrite firedK_app, dispK_app, reqs_app. simpl. rewrite !app_nil_r.
+  rewrite Eh in *. simpl in *. split; [lia|].
+  split; [rewrite Hf, <- !app_assoc; reflexivity|]. auto.
+Qed.
+
+Lemma dispatch_good t0 s k h b : Inv t0 s -> batch s = S b -> heap s = k :: h ->
+  Inv t0 (dispatch P ticker k (set_heap h (set_batch b s))) /\
+  mono s (dispatch P ticker k (set_heap h (set_batch b s))).
+Proof.
+  intros H Eb Eh. pose proof (inv_pop t0 s k h b H Eb Eh) as H0.
+  unfold dispatch. set (s0 := logt (TDisp k) (set_heap h (set_batch b s))) in *.
+  assert (mono s s0) as M0 by (red; auto).
+  assert (forall s', Inv t0 s' /\ mono s0 s' -> Inv t0 s' /\ mono s s') as W
+    by (intros s' (A & B); split; [exact A | eauto using mono_trans]).
+  destruct k; try (apply W; apply run_handlers_good; exact H0).
+  destruct ((0 <? batch s0) || (0 <? qlen s0) || negb (running s0)).
+  - auto.
+  - destruct (tasks s0).
+    + apply W. apply idle_wait_good. exact H0.
+    + apply W. apply timed_wait_good. exact H0.
+Qed.
+
+Lemma floop_good t0 n : forall s, Inv t0 s -> Inv t0 (floop P ticker n s) /\ mono s (floop P ticker n s).
+Proof.
+  induction n as [|n IH]; intros s H; simpl.
+  - destruct (batch s =? 0); split; auto using mono_refl. red; auto.
+  - destruct (batch s) as [|b] eqn:Eb; [split; auto using mono_refl|].
+    destruct (heap s) as [|k h] eqn:Eh; [split; [exact H | red; auto]|].
+    destruct (dispatch_good t0 s k h b H Eb Eh) as (H1 & M1).
+    destruct (IH _ H1) as (H2 & M2). split; [exact H2 | eauto using mono_trans].
+Qed.
+
+Lemma inv_load t0 s : Inv t0 s -> batch s = 0 ->
+  Inv t0 (set_batch (length (fifo s)) (set_heap (heap s ++ fifo s) (set_fifo [] s))).
+Proof.
+  intros (d & Ht & Hb & Hf & Hs & Hr) E0. exists d. simpl.
+  assert (heap s = []) as Eh by (destruct (heap s); [reflexivity | simpl in Hb; lia]).
+  rewrite Eh in *. simpl in *. rewrite app_nil_r. auto.
+Qed.
+
+Lemma flush_good : good (flush P ticker).
+Proof.
+  intros t0 s H. unfold flush. destruct (batch s =? 0) eqn:E.
+  - apply Nat.eqb_eq in E. pose proof (inv_load t0 s H E) as H1.
+    destruct (floop_good t0 (batch (set_batch (length (fifo s)) (set_heap (heap s ++ fifo s) (set_fifo [] s)))) _ H1) as (H2 & M2).
+    split; [exact H2 | red; intros R; apply M2; exact R].
+  - apply floop_good. exact H.
+Qed.
+
+Lemma on_exn_task_good t0 g j x s : Inv t0 s -> (forall z, x = XStopped z -> running s = false) ->
+  Inv t0 (on_exn_task ticker g j x s) /\ mono s (on_exn_task ticker g j x s).
+Proof.
+  intros H Hx. unfold on_exn_task.
+  destruct x; try (apply (on_stop_exn_good t0 _ (update_task g j [] s)); [exact H | exact Hx]).
+  split; [apply inv_fire; congruence || exact H | red; auto].
+Qed.
+
+Lemma proc_task_good t0 t s : Inv t0 s -> Inv t0 (proc_task ticker t s) /\ mono s (proc_task ticker t s).
+Proof.
+  intros H. destruct t as ((g, j), sg). unfold proc_task.
+  destruct sg as [|(acts, r) rest]; [split; [exact H | red; auto]|].
+  assert (Inv t0 (logt (TG g j) s)) as H0 by (apply inv_logt; simpl; auto).
+  destruct (exec_acts_good t0 acts _ H0) as (H1 & M1 & S1).
+  destruct (exec_acts ticker acts (logt (TG g j) s)) as (s1, e) eqn:E. cbn [fst snd] in *.
+  assert (mono s s1) as M by (red; intros R; apply M1; exact R).
+  assert (forall s', Inv t0 s' /\ mono s1 s' -> Inv t0 s' /\ mono s s') as W
+    by (intros s' (A & B); split; [exact A | eauto using mono_trans]).
+  destruct e as [x|].
+  - apply W. apply on_exn_task_good; [exact H1 | intros z ->; exact S1].
+  - destruct r.
+    + split; [exact H1 | exact M].
+    + split; [exact H1 | exact M].
+    + apply W. apply on_exn_task_good; [exact H1 | discriminate].
+    + apply W. apply on_exn_task_good; [exact H1 | discriminate].
+    + apply W. apply on_exn_task_good; [exact H1 | discriminate].
+Qed.
+
+Lemma proc_gids_good t0 l : forall s, Inv t0 s -> Inv t0 (proc_gids ticker l s) /\ mono s (proc_gids ticker l s).
+Proof.
+  induction l as [|g r IH]; intros s H; simpl.
+  - split; [exact H | red; auto].
+  - assert (Inv t0 (proc_gid ticker g s) /\ mono s (proc_gid ticker g s)) as (H1 & M1).
+    { unfold proc_gid. destruct (find_task g (tasks s)); [apply proc_task_good; exact H | split; [exact H | red; auto]]. }
+    destruct (IH _ H1) as (H2 & M2). split; [exact H2 | eauto using mono_trans].
+Qed.
+
+Lemma tick_good : good (tick P ticker).
+Proof.
+  intros t0 s H. unfold tick.
+  assert (Inv t0 (logt TTick s)) as H0 by (apply inv_logt; simpl; auto).
+  set (s0 := logt TTick s) in *.
+  assert (mono s s0) as M0 by (red; auto).
+  destruct (match sched s0 with [] => ([], s0) | e :: r => (e, set_sched r s0) end) as (e, s0') eqn:Es.
+  assert (Inv t0 s0' /\ mono s0 s0') as (H0' & M0').
+  { destruct (sched s0); inversion Es; subst; split; auto; red; auto. }
+  destruct (proc_gids_good t0 (order e (map gid_of (tasks s0'))) s0' H0') as (H1 & M1).
+  set (s1 := proc_gids ticker (order e (map gid_of (tasks s0'))) s0') in *.
+  assert (Inv t0 (if running s1 then fire KGE s1 else s1) /\ mono s1 (if running s1 then fire KGE s1 else s1)) as (H2 & M2).
+  { destruct (running s1); split; auto; try (red; auto). apply inv_fire; congruence || assumption. }
+  set (s2 := if running s1 then fire KGE s1 else s1) in *.
+  assert (mono s s2) as M by eauto using mono_trans.
+  destruct (0 <? qlen s2).
+  - destruct (flush_good t0 s2 H2) as (H3 & M3). split; [exact H3 | eauto using mono_trans].
+  - auto.
+Qed.
+
+End Layers.
+
+Lemma tickd_good P d : good (tickd P d).
+Proof. induction d; simpl; [exact good_set_bad | apply tick_good; assumption]. Qed.
+
+(* ---- the loops of run() *)
+Lemma main_loop_spec P d t0 fuel : forall s s', Inv t0 s -> main_loop P d fuel s = Some s' ->
+  Inv t0 s' /\ running s' = false /\ qlen s' = 0.
+Proof.
+  induction fuel as [|f IH]; intros s s' H E; simpl in E; [discriminate|].
+  destruct (running s || (0 <? qlen s)) eqn:C.
+  - eapply IH; [|exact E]. apply tickd_good. exact H.
+  - inversion E; subst. apply orb_false_iff in C. destruct C as (R & Q).
+    apply Nat.ltb_ge in Q. split; [exact H|]. split; [exact R | lia].
+Qed.
+
+Lemma drain_spec P d t0 fuel : forall s s', Inv t0 s -> running s = false -> drain P d fuel s = Some s' ->
+  Inv t0 s' /\ running s' = false /\ qlen s' = 0.
+Proof.
+  induction fuel as [|f IH]; intros s s' H R E; simpl in E; [discriminate|].
+  destruct (0 <? qlen s) eqn:C.
+  - destruct (flush_good P (tickd P d) (tickd_good P d) t0 s H) as (H1 & M1).
+    eapply IH; [exact H1 | apply M1; exact R | exact E].
+  - inversion E; subst. apply Nat.ltb_ge in C. split; [exact H|]. split; [exact R | lia].
+Qed.
+
+Lemma inv_start t0 s : idle s -> trace s = t0 ->
+  Inv t0 (fire KStarted (set_executing true (set_xcode None (set_running true s)))).
+Proof.
+  intros (R & X & F & Hh & B & _) Ht. exists [TFire KStarted].
+  unfold fire, logt; simpl. rewrite Ht, F, Hh, B. simpl. repeat split; reflexivity.
+Qed.
+
+(* everything the property says about one run(), from one use of the invariant *)
+Theorem run_spec : forall P d fuel s0 s1 out, idle s0 -> run P d fuel s0 = Some (s1, out) ->
+  exists delta, trace s1 = trace s0 ++ delta /\
+    firedK delta = dispK delta /\
+    cnt KStarted (firedK delta) = 1 /\ cnt KStopped (firedK delta) = 1 /\
+    (exists r, reqs delta = out :: r) /\
+    idle s1.
+Proof.
+  intros P d fuel s0 s1 out Hi E. unfold run in E.
+  pose proof (inv_start (trace s0) s0 Hi eq_refl) as H1.
+  set (sa := fire KStarted (set_executing true (set_xcode None (set_running true s0)))) in *.
+  destruct (main_loop P d fuel sa) as [s2|] eqn:E2; [|discriminate].
+  destruct (main_loop_spec P d _ _ _ _ H1 E2) as (H2 & R2 & Q2).
+  pose proof (tickd_good P d) as G.
+  destruct (G _ _ H2) as (H3a & M3a). destruct (G _ _ H3a) as (H3b & M3b).
+  destruct (G _ _ H3b) as (H3c & M3c). destruct (G _ _ H3c) as (H3 & M3d).
+  set (s3 := tickd P d (tickd P d (tickd P d (tickd P d s2)))) in *.
+  assert (running s3 = false) as R3 by (apply M3d, M3c, M3b, M3a; exact R2).
+  destruct (drain P d fuel s3) as [s4|] eqn:E4; [|discriminate].
+  destruct (drain_spec P d _ _ _ _ H3 R3 E4) as (H4 & R4 & Q4).
+  destruct (bad s4) eqn:B4; [discriminate|]. inversion E; subst. clear E.
+  destruct H4 as (dl & Ht & Hb & Hf & Hs & Hr). rewrite R4 in Hr. destruct Hr as (Hst & c & r & Hq & Hx).
+  unfold qlen in Q4.
+  assert (fifo s4 = [] /\ heap s4 = []) as (F4 & Hp4).
+  { destruct (fifo s4); destruct (heap s4); simpl in Q4; try lia; auto. }
+  rewrite F4, Hp4 in *. simpl in Hb. rewrite !app_nil_r in Hf.
+  exists dl. simpl. split; [exact Ht|]. split; [exact Hf|]. split; [exact Hs|]. split; [exact Hst|].
+  split; [exists r; rewrite Hq, Hx; reflexivity|].
+  unfold idle; simpl. repeat split; assumption || reflexivity.
+Qed.
+
+(* ---- the statements of Props/C08.v *)
+Lemma started_once : forall P d fuel s0 s1 out, idle s0 -> run P d fuel s0 = Some (s1, out) ->
+  exists delta, trace s1 = trace s0 ++ delta /\ cnt KStarted (dispK delta) = 1.
+Proof.
+  intros P d fuel s0 s1 out Hi E. destruct (run_spec P d fuel s0 s1 out Hi E) as (dl & Ht & Hf & Hs & Hst & Hq & Hid).
+  exists dl. rewrite <- Hf. auto.
+Qed.
+
+Lemma stopped_once : forall P d fuel s0 s1 out, idle s0 -> run P d fuel s0 = Some (s1, out) ->
+  exists delta, trace s1 = trace s0 ++ delta /\ cnt KStopped (dispK delta) = 1.
+Proof.
+  intros P d fuel s0 s1 out Hi E. destruct (run_spec P d fuel s0 s1 out Hi E) as (dl & Ht & Hf & Hs & Hst & Hq & Hid).
+  exists dl. rewrite <- Hf. auto.
+Qed.
+
+Lemma drained : forall P d fuel s0 s1 out, idle s0 -> run P d fuel s0 = Some (s1, out) ->
+  fifo s1 = [] /\ heap s1 = [] /\ batch s1 = 0 /\
+  exists delta, trace s1 = trace s0 ++ delta /\ dispK delta = firedK delta.
+Proof.
+  intros P d fuel s0 s1 out Hi E. destruct (run_spec P d fuel s0 s1 out Hi E) as (dl & Ht & Hf & Hs & Hst & Hq & Hid).
+  destruct Hid as (_ & _ & F & Hh & B & _). repeat split; auto. exists dl. auto.
+Qed.
+
+Lemma exit_code : forall P d fuel s0 s1 out, idle s0 -> run P d fuel s0 = Some (s1, out) ->
+  exists delta r, trace s1 = trace s0 ++ delta /\ reqs delta = out :: r.
+Proof.
+  intros P d fuel s0 s1 out Hi E. destruct (run_spec P d fuel s0 s1 out Hi E) as (dl & Ht & Hf & Hs & Hst & (r & Hq) & Hid).
+  exists dl, r. auto.
+Qed.
+
 Lemma idle_stop : forall (tk : st -> st) c s, running s = false -> stop tk c s = (s, false).
 Proof. intros tk c s H. unfold stop. rewrite H. reflexivity. Qed.
+
+Lemma rerun : forall P d fuel s0 s1 out, idle s0 -> run P d fuel s0 = Some (s1, out) -> idle s1.
+Proof.
+  intros P d fuel s0 s1 out Hi E. destruct (run_spec P d fuel s0 s1 out Hi E) as (dl & Ht & Hf & Hs & Hst & Hq & Hid).
+  exact Hid.
+Qed.
